@@ -111,7 +111,7 @@ def run_case(seed, tier, rec, st):
                         got = ("ok", fn())
                     except Exception as ex:
                         got = ("raise", ex)
-                    if d is None and t[0] == "tv" and rname in ("codec", "func"):
+                    if d is None and tast.strip(t)[0] == "tv" and rname in ("codec", "func"):
                         # a bound TypeVar acts as Optional[bound] in field / nested positions; at the root of a
                         # codec there is no enclosing position, both outcomes are accepted there
                         rec.count("root_typevar_null_skipped")
